@@ -4,6 +4,6 @@ seed=$1; prop=$2; tier=${3:-quick}
 git -C /repo diff --quiet || { echo "/repo is dirty"; exit 2; }
 git -C /repo apply /verif/seeded/$seed/patch.diff || { echo "patch does not apply"; exit 3; }
 cd /verif && ./check $prop $tier > /tmp/try_${seed}_${prop}.log 2>&1; rc=$?
-git -C /repo checkout -- .
+git -C /repo apply -R /verif/seeded/$seed/patch.diff 2>/dev/null; git -C /repo checkout -- .; git -C /repo clean -fdq -- . 
 echo "seed=$seed check=$prop exit=$rc :: $(grep -c '^VIOLATION' /tmp/try_${seed}_${prop}.log) violation line(s)"
 grep '^VIOLATION\|^KNOWN\|oracle failure' /tmp/try_${seed}_${prop}.log | cut -c1-400 | head -6
